@@ -135,6 +135,9 @@ func (m *PeerMon) violate(format string, a ...any) {
 func (m *PeerMon) Seal(why string) {
 	m.mu.Lock()
 	defer m.mu.Unlock()
+	if m.sealed {
+		return
+	}
 	m.sealed = true
 	if m.state != stDown {
 		m.violate("%s returned while plugin automaton is in %s (OnClose not delivered / callback still running)", why, stNames[m.state])
